@@ -7,8 +7,9 @@ This file restates their INTEGER fragment (both operands satisfy `isInt`) as pla
 result type `R`, and proves that the monadic functions agree with the plain ones (`numBin_int`, `intBin_int`,
 `relOp_int`, `relOp_eq`, `relOp_ne`, the wrong-kind lemmas).  Core-only; nothing here changes `Eval.lean`.
 
-`Float` is opaque to the kernel, so nothing is said about results that involve a float; the wrong-kind lemmas only
-need `isFloat _ = none`. -/
+`Float` arithmetic is opaque to the kernel, so nothing is said here about results that involve a float; the
+wrong-kind lemmas only need `isFloat _ = none`.  Float COMPARISONS are computed on bit patterns (`Exp/F64Cmp.lean`);
+their agreement lemmas (`numEq_float`, `relOp_float`) are in `Proofs/FloatOps.lean`. -/
 namespace EV
 
 /-- outcome of one operator application: a value, a recorded error (`SetErrorOnToken`, the visitor returns nil),
